@@ -28,10 +28,32 @@ def overhead : Nat := 16
 def sealedFrameSize : Nat := totalFrameSize + overhead
 def nonceSize : Nat := 24
 
-/-- source facts (tied by `Ties/C32.lean`): which variable receives `copy`'s result in each
-    branch of `Read`, and which identifiers the bare `return`s give back -/
-def readCopyTargets : List String := ["n_", "n"]
+/-! source facts the model relies on (tied to the regenerated `Gen/SecretConn.lean` by
+   `Ties/C32.lean`) -/
+def totalFrameSizeExpr : String := "dataMaxSize + dataLenSize"
+def sealedFrameSizeExpr : String := "totalFrameSize + secretbox.Overhead"
+/-- `Read`'s named results -/
 def readNamedResults : List String := ["n", "err"]
+/-- where `copy`'s count goes in the two branches of `Read`: a NEW variable `n_` in the
+    buffered branch (so the named result `n` stays 0), the named result in the frame branch -/
+def readCopies : List String := ["n_ := copy(data, sc.recvBuffer)", "n = copy(data, chunk)"]
+/-- all returns of `Read` in source order; the first is the buffered branch's bare return -/
+def readReturns : List String :=
+  ["return", "return", "return n, errors.New(\"Failed to decrypt SecretConnection\")",
+   "return 0, errors.New(\"chunkLength is greater than dataMaxSize\")", "return"]
+def writeSkeleton : List String :=
+  ["for 0 < len(data)", "frame := make([]byte, totalFrameSize)", "if dataMaxSize < len(data)",
+   "chunk = data[:dataMaxSize]", "data = data[dataMaxSize:]", "chunk = data", "data = nil",
+   "binary.BigEndian.PutUint16(frame, uint16(len(chunk)))", "copy(frame[dataLenSize:], chunk)",
+   "sealedFrame := make([]byte, sealedFrameSize)",
+   "secretbox.Seal(sealedFrame[:0], frame, sc.sendNonce, sc.shrSecret)", "incr2Nonce(sc.sendNonce)",
+   "if _, err := sc.conn.Write(sealedFrame); err != nil", "_, err := sc.conn.Write(sealedFrame)",
+   "return n, err", "n += len(chunk)", "return"]
+def incrNonceBody : String := "{ for i := 23; 0 <= i; i-- { nonce[i]++ if nonce[i] != 0 { return } } }"
+def incr2NonceBody : String := "{ incrNonce(nonce) incrNonce(nonce) }"
+def genNoncesBody : String :=
+  "{ nonce1 := hash24(append(loPubKey[:], hiPubKey[:]...)) nonce2 := new([24]byte) copy(nonce2[:], nonce1[:]) nonce2[len(nonce2)-1] ^= 0x01 if locIsLo { return nonce1, nonce2 } return nonce2, nonce1 }"
+def sort32Body : String := "{ if bytes.Compare(foo[:], bar[:]) < 0 { return foo, bar } return bar, foo }"
 
 structure Aead where
   enc : Bytes → Bytes → Bytes → Bytes            -- key, nonce, plaintext
@@ -177,7 +199,7 @@ def copied (rs : List ReadRes) : Bytes := (rs.map (·.written)).flatten
 def sumBytes (m : Bytes) : UInt8 := m.foldl (· + ·) 0
 
 def toyTag (key nonce m : Bytes) : Bytes :=
-  (sumBytes m + sumBytes key) :: (nonce.drop 9 ++ List.replicate (15 - (nonce.drop 9).length) 0)
+  (sumBytes m + sumBytes key) :: (nonce.drop 9 ++ List.replicate 15 0).take 15
 
 def toy : Aead where
   enc := fun k n m => toyTag k n m ++ m
